@@ -547,6 +547,8 @@ func c09(c *Ctx) {
 	r := c.R
 	r.Explain = "C09 (codec vs protobuf schema): decides agreement of three tables on every run — R: (number, wire kind, label) read from the struct tags of boxo's generated unixfs_pb messages via go/types; E: every protowire.AppendTag site of the hand-written encoders with the accessor feeding it; D: every case of the hand-written decoder loops with the wire types it accepts and the schema key it assembles — plus unknown-field skipping, consume/advance discipline of every protowire.Consume* call, presentation multiplicity of the repeated field by finite-state exploration of the decoder's CFG over conformant presentations (unpacked run / one packed run), canonical field order and nested-message length framing of the encoder, and the permission-bit table. Not decided: value-level equality with gogo-protobuf on all messages (boundary integers, non-minimal varints are protowire's behaviour)."
 	r.Rule("R9.1", "three-table agreement: E ⊆ R on (number, wire type), Append* kind = wire type, required fields appended unconditionally; for every R entry D has a case accepting exactly R's wire type (plus bytes/packed for a repeated scalar) with the matching Consume* kind; E and D name the same schema field per number and that name contains the .proto name")
+	r.Rule("R9.8", "presence exactness: the emission of an optional field is governed only by that field's Exists() (for Mode additionally by the comparison with the type's default): no further comparison on the field's value or on another field stands between presence and emission — a present value that the encoder drops does not survive a round trip")
+	r.Rule("R9.9", "the element count of a packed varint run is the number of payload bytes with the continuation bit clear: the counting loop over the bytes of the length-delimited payload tests each byte with < 0x80 (or an equivalent form)")
 	r.Rule("R9.2", "each decoder loop has a default path that calls protowire.ConsumeFieldValue(fieldNum, wireType, rest) and errors only when it returns a negative length")
 	r.Rule("R9.3", "the length n returned by each protowire.Consume* call flows only to a sign test, protowire.ParseError and one slice rest[n:] of the very buffer that was consumed, guarded by n>=0, and no path from the call back to the loop header skips that slice")
 	r.Rule("R9.4", "finite-state exploration of the decoder CFG over conformant presentations of the repeated field (k>=0 unpacked occurrences or one packed run, any other fields interleaved): every nil-error return assembles the repeated field's key exactly once and no state-dependent rejection is reachable")
@@ -737,6 +739,8 @@ func c09(c *Ctx) {
 	c.checkEncoderOrder(encs)
 	c.checkFraming(encs)
 	c.checkPermissions()
+	c.checkPresenceExact(encs)
+	c.checkPackedCount()
 
 	// ---- R9.7
 	n97 := 0
@@ -1011,7 +1015,16 @@ func (c *Ctx) helperConsumes(d *decoder, call *ssa.Call, w int64) (string, []str
 		}
 	}
 	if wtParam == nil {
-		return "", nil
+		// a plain consume helper: it is handed the buffer and consumes one element whatever the wire type
+		takesBuf := false
+		for i, a := range call.Call.Args {
+			if sl, ok := a.Type().Underlying().(*types.Slice); ok && isBasic(sl.Elem(), types.Byte) && i < len(h.Params) {
+				takesBuf = true
+			}
+		}
+		if !takesBuf {
+			return "", nil
+		}
 	}
 	found := ""
 	seen := map[*ssa.BasicBlock]bool{}
